@@ -145,6 +145,10 @@ func TestEngineVauth(t *testing.T) {
 				sigBz[r.Intn(64)] ^= 1 << uint(r.Intn(8))
 			case 8: // one extra byte
 				sigBz = append(append([]byte{}, good...), 0)
+			case 9: // the account's own key over another digest of the same text: the EIP-191 personal_sign envelope
+				sigBz, _ = crypto.Sign(accounts191Hash(vauthtypes.MessageToSign), key)
+			case 10: // the account's own key over the text hashed twice
+				sigBz, _ = crypto.Sign(crypto.Keccak256(msgHash), key)
 			default:
 				sigBz = good
 			}
@@ -284,4 +288,9 @@ func TestEngineVauth(t *testing.T) {
 			}
 		}
 	}
+}
+
+// accounts191Hash: keccak256("\x19Ethereum Signed Message:\n" + len(text) + text), the digest wallets sign for personal_sign
+func accounts191Hash(text string) []byte {
+	return crypto.Keccak256([]byte(fmt.Sprintf("\x19Ethereum Signed Message:\n%d%s", len(text), text)))
 }
